@@ -211,13 +211,16 @@ class State:
                     if not nv:
                         raise Infeasible()
                     self.sets[s] = nv
-                    self._set_bounds(s, min(nv), max(nv))
+                    if self._set_bounds(s, min(nv), max(nv)):
+                        self._propagate()
                 return
             l, h = self.bounds(s)
             if l is not None and l == v:
-                self._set_bounds(s, v + 1, None)
+                if self._set_bounds(s, v + 1, None):
+                    self._propagate()
             elif h is not None and h == v:
-                self._set_bounds(s, None, v - 1)
+                if self._set_bounds(s, None, v - 1):
+                    self._propagate()
             else:
                 if lin not in self.neqs:
                     self.neqs.append(lin)
@@ -229,6 +232,17 @@ class State:
             self.assume_ge0(-lin - 1)
         elif lin not in self.neqs:
             self.neqs.append(lin)
+
+    def _propagate(self):
+        """bound propagation through the linear facts after a range changed (bounded rounds)"""
+        for _ in range(4):
+            ch = False
+            for f in self.facts:
+                if self._tighten_with(f):
+                    ch = True
+            if not ch:
+                break
+        self._recheck_neqs()
 
     def _recheck_neqs(self):
         if not self.neqs:
